@@ -504,6 +504,6 @@ pub fn run(ctx: &Ctx) {
         max_recs: 5,
         mixed_kinds: false,
     };
-    ctx.search("conformant-wide", ctx.n(60_000, 2_000_000), &move || gen::conformant_case(c, BuildOpts::WIDE), &oracle);
-    ctx.search("hostile", ctx.n(60_000, 2_000_000), &gen::hostile_case, &oracle);
+    ctx.search("conformant-wide", ctx.n(80_000, 8_000_000), &move || gen::conformant_case(c, BuildOpts::WIDE), &oracle);
+    ctx.search("hostile", ctx.n(80_000, 8_000_000), &gen::hostile_case, &oracle);
 }
